@@ -71,6 +71,6 @@ Print Assumptions C10_cancel_isolated.
 Theorem C10_pipeline_order :
   forall (isq : value -> bool) (A : Type) (handle : value -> A) (cs1 cs2 : list bytes),
   concat cs1 = concat cs2 ->
-  map handle (fst (run_nocap isq ([], 0%nat, CNeedMore) cs1)) = map handle (fst (run_nocap isq ([], 0%nat, CNeedMore) cs2)).
-Proof. intros isq A handle cs1 cs2 H. destruct (two_splittings_agree isq cs1 cs2 H) as [E _]. rewrite E. reflexivity. Qed.
+  map handle (fst (conn_run isq conn_init cs1)) = map handle (fst (conn_run isq conn_init cs2)).
+Proof. intros isq A handle cs1 cs2 H. destruct (two_splittings_agree_real isq cs1 cs2 H) as [E _]. rewrite E. reflexivity. Qed.
 Print Assumptions C10_pipeline_order.
